@@ -116,9 +116,11 @@ def isPrintable (b : Byte) : Bool := 0x21 ≤ b && b ≤ 0x7E
 def isSchemeChar (b : Byte) : Bool := isLower b || isDigit b || b == 0x2E || b == 0x2D || b == 0x2B
 
 /-- `QueryString.encode(QueryString.decode(q, 'UTF-8'), 'UTF-8')` -/
-def requery (qsafe : Byte → Bool) (q : Bytes) : R Bytes := do
-  let ps ← Form.queryDecode q
-  pure (Form.encode qsafe ps)
+def requery (qsafe : Byte → Bool) (q : Bytes) : R Bytes :=
+  match Form.queryDecode q with
+  | .ok ps => .ok (Form.encode qsafe ps)
+  | .error (.escape _) => .error .invalidURI     -- `except UnicodeDecodeError: raise InvalidURI` (F11 repair)
+  | .error e => .error e
 
 structure Env where
   schemes : Schemes
